@@ -47,7 +47,7 @@ func (it *Interp) yearOf(ns Value) Value {
 	if it.feasible(mkOr(mkCmp("<", ns, lo), mkCmp(">=", ns, hi))) {
 		panic(unsupported("time.Year() on a time that may lie outside 1970..2400 (the static year table); constrain the harness"))
 	}
-	return symI("(yearOfNs "+T(ns)+")", 12, true)
+	return symI("(yearOfNs "+T(ns)+")", big.NewInt(1970), big.NewInt(2400))
 }
 
 func registerTime(P *Program) {
@@ -65,27 +65,13 @@ func registerTime(P *Program) {
 	P.reg(TT+"Unix", func(it *Interp, a []Value) Value {
 		ns := it.timeArg(a[0])
 		r := mkDivE(ns, nsPerSec) // floor
-		if s, ok := r.(*Sym); ok {
-			b := 0
-			if bitsOf(ns) > 0 {
-				b = max(bitsOf(ns)-29, 2)
-			}
-			return &Sym{S: SInt, T: s.T, Bits: b, NonNeg: nonNeg(ns)}
-		}
-		return r
+		return divRange(r, ns, nsPerSec)
 	})
 	P.reg(TT+"UnixNano", func(it *Interp, a []Value) Value { return it.timeArg(a[0]) })
 	P.reg(TT+"UnixMilli", func(it *Interp, a []Value) Value {
 		ns := it.timeArg(a[0])
 		r := mkDivE(ns, big.NewInt(1000000))
-		if s, ok := r.(*Sym); ok {
-			b := 0
-			if bitsOf(ns) > 0 {
-				b = max(bitsOf(ns)-19, 2)
-			}
-			return &Sym{S: SInt, T: s.T, Bits: b, NonNeg: nonNeg(ns)}
-		}
-		return r
+		return divRange(r, ns, big.NewInt(1000000))
 	})
 	P.reg(TT+"UTC", func(it *Interp, a []Value) Value { return TimeV{NS: it.timeArg(a[0])} })
 	P.reg(TT+"Local", func(it *Interp, a []Value) Value { return TimeV{NS: it.timeArg(a[0])} })
@@ -121,4 +107,21 @@ func registerTime(P *Program) {
 	P.reg("(time.Duration).Seconds", func(it *Interp, a []Value) Value { panic(unsupported("Duration.Seconds (float)")) })
 	P.reg("(time.Duration).Milliseconds", func(it *Interp, a []Value) Value { return mkQuoT(a[0], big.NewInt(1000000)) })
 	P.reg("(time.Duration).String", func(it *Interp, a []Value) Value { return symStrMark + "dur" })
+}
+
+// divRange attaches the exact interval of floor(x / d) for a positive constant d.
+func divRange(r Value, x Value, d *big.Int) Value {
+	s, ok := r.(*Sym)
+	if !ok {
+		return r
+	}
+	l, h := rng(x)
+	var lo, hi *big.Int
+	if l != nil {
+		lo = new(big.Int).Div(l, d)
+	}
+	if h != nil {
+		hi = new(big.Int).Div(h, d)
+	}
+	return &Sym{S: SInt, T: s.T, Lo: lo, Hi: hi}
 }
